@@ -52,6 +52,10 @@ func propC04(r *Run) {
 		w.startWeb(a)
 		w.startSasl(a)
 		w.startLDAP(a)
+		if r.Choose("fragment-sasl", 2) == 1 {
+			// the saslauthd socket delivers the client's bytes in scheduler-chosen fragments
+			w.nw.ManualFor = func(target string) bool { return target == a.saslPath }
+		}
 		users := sortedKeysA(stored)
 		for k := 0; k < r.Choose("nmgmt", 3); k++ {
 			u := users[r.Choose("mgmt-user", len(users))]
